@@ -19,6 +19,10 @@ def setup():
 def value_classes(rng, n):
     """arrays of length n for each value class of the C05 quantifier"""
     out = []
+    if QUICK[0]:
+        a = np.array([rng.choice([0.0, 1.0, 2.5, -1.0]) for _ in range(n)], dtype=float); out.append(('finite', a))
+        a = np.array([rng.choice([0.0, INF, -INF, 2.0, NAN, 1e300]) for _ in range(n)], dtype=float); out.append(('naninf', a))
+        return out
     out.append(('finite', np.array([rng.choice([0.0, 1.0, 2.5, 7.0, 0.5]) for _ in range(n)], dtype=float)))
     out.append(('negative', np.array([rng.choice([-1.0, -2.5, 3.0]) for _ in range(n)], dtype=float)))
     a = np.array([rng.choice([0.0, 1.0, NAN, 2.0]) for _ in range(n)], dtype=float); out.append(('nan', a))
@@ -49,6 +53,7 @@ class Probe:
 
 
 LENGTHS = [0, 1, 2, 3, 5, 17]
+QUICK = [False]
 
 
 def drive_data(p, rng):
@@ -71,12 +76,12 @@ def drive_data(p, rng):
                 for thresh, tau, bfi in ((0.95, 20, 0.8), (2.0, 20, 0.8), (0.5, 0.0, 0.5), (0.5, 20, -1.0)):
                     p.call('signatures.eckhardt|%d %s' % (n, cls), signatures.eckhardt, x, thresh, tau, bfi, tt)
     # var2h: irregular series around the hour boundaries, short and long, every unit
-    for unit in ('s', 'ms', 'us', 'ns'):
-        for n in (1, 2, 3, 6, 20):
-            for step in (1, 600, 1800, 3600, 7200):
+    for unit in (('s', 'ns') if QUICK[0] else ('s', 'ms', 'us', 'ns')):
+        for n in ((1, 2, 6) if QUICK[0] else (1, 2, 3, 6, 20)):
+            for step in ((1, 1800, 7200) if QUICK[0] else (1, 600, 1800, 3600, 7200)):
                 t0 = pd.Timestamp('2001-03-04 05:06:07')
                 times = pd.DatetimeIndex([t0 + pd.Timedelta(seconds=int(step * k)) for k in range(n)]).as_unit(unit)
-                for cls, x in value_classes(rng, n)[:3]:
+                for cls, x in value_classes(rng, n)[:(2 if QUICK[0] else 3)]:
                     se = pd.Series(x, index=times)
                     for P in (3600, 1800, 900):
                         for rain in (False, True):
@@ -193,7 +198,7 @@ def drive_gis(p, rng):
             for nval in (0, 1, n + 1):
                 p.call('grid.delineate_river', G.delineate_river, fd, start, nval)
         for nprint in (0, 1, -1, 100):
-            for mac in (0, 1, n, int(1e8)):
+            for mac in (0, 1, n, 5000):
                 p.call('grid.accumulate|nprint %d' % nprint, G.accumulate, fd, None, nprint, mac)
             alt = fd.clone(np.float64)
             p.call('grid.slope|nprint %d' % nprint, G.slope, fd, alt, nprint)
